@@ -49,6 +49,7 @@ ASSUMPTIONS = [
 ]
 TRUSTED = []
 EXPLORED_ONLY = []
+ORACLE_LIMIT = {"quick": 70000, "thorough": 300000}     # the 65536-case two-octet sweep is oracle-checked in full
 
 TLV_TYPES = [0, 1, 2, 4, 5, 6]
 ACTIONS = list(range(9))
